@@ -40,9 +40,9 @@ theorem min_match_sound (regs : List RegView) (d : Bytes) (rid n : Nat)
     · cases h
 
 /-- prefix, one loop iteration -/
-theorem prefixIter_found (reveal : Nat → Option String) (regs : List RegView) (d : Bytes) (st : PLoop)
+theorem prefixIter_found (reveal : Bytes → Option String) (regs : List RegView) (d : Bytes) (st : PLoop)
     (e : PrefixEntry) (rid n : Nat) (h : prefixIter reveal regs d st e = .inl (.found rid n)) :
-    ∃ r ∈ regs, r.rid = rid ∧ reveal e.offset = some r.ident ∧ r.transport = 4 ∧
+    ∃ r ∈ regs, r.rid = rid ∧ reveal (window d e.offset) = some r.ident ∧ r.transport = 4 ∧
       r.prefixParam = some (some e.id) ∧ staticOk e d = true ∧ e.maxLen ≤ d.length ∧
       e.offset + 64 ≤ d.length ∧ n = e.offset + 64 := by
   unfold prefixIter at h
@@ -69,10 +69,10 @@ theorem prefixIter_found (reveal : Nat → Option String) (regs : List RegView) 
       refine ⟨r, hm, h.1, by rw [hrev, hi], by simpa using htr, by simpa using hpp, by simpa using hs,
         by omega, by simp [prefixTagLen] at hoff; omega, by simp [prefixTagLen] at h; omega⟩
 
-theorem prefixLoop_found (reveal : Nat → Option String) (regs : List RegView) (d : Bytes)
+theorem prefixLoop_found (reveal : Bytes → Option String) (regs : List RegView) (d : Bytes)
     (table : List PrefixEntry) (st : PLoop) (rid n : Nat)
     (h : prefixLoop reveal regs d st table = .found rid n) :
-    ∃ e ∈ table, ∃ r ∈ regs, r.rid = rid ∧ reveal e.offset = some r.ident ∧ r.transport = 4 ∧
+    ∃ e ∈ table, ∃ r ∈ regs, r.rid = rid ∧ reveal (window d e.offset) = some r.ident ∧ r.transport = 4 ∧
       r.prefixParam = some (some e.id) ∧ staticOk e d = true ∧ e.maxLen ≤ d.length ∧
       e.offset + 64 ≤ d.length ∧ n = e.offset + 64 := by
   induction table generalizing st with
@@ -95,9 +95,9 @@ theorem prefixLoop_found (reveal : Nat → Option String) (regs : List RegView) 
 window at its offset reveals (under a station key) the identifier of a registration visible on this
 phantom, that registration is a PREFIX registration and registered exactly THIS prefix id; offset +
 tag are consumed.  Holds for every iteration order of the prefix table (`table` is arbitrary). -/
-theorem prefix_match_sound (table : List PrefixEntry) (reveal : Nat → Option String)
+theorem prefix_match_sound (table : List PrefixEntry) (reveal : Bytes → Option String)
     (regs : List RegView) (d : Bytes) (rid n : Nat) (h : wrapPrefix table reveal regs d = .found rid n) :
-    ∃ e ∈ table, ∃ r ∈ regs, r.rid = rid ∧ reveal e.offset = some r.ident ∧ r.transport = 4 ∧
+    ∃ e ∈ table, ∃ r ∈ regs, r.rid = rid ∧ reveal (window d e.offset) = some r.ident ∧ r.transport = 4 ∧
       r.prefixParam = some (some e.id) ∧ staticOk e d = true ∧ e.maxLen ≤ d.length ∧
       e.offset + 64 ≤ d.length ∧ n = e.offset + 64 := by
   unfold wrapPrefix at h
@@ -128,7 +128,7 @@ theorem obfs4_match_sound (marks : List Nat) (regs : List RegView) (d : Bytes) (
 
 /-- a flight for one prefix is never accepted for a registration of another prefix, of no prefix
 (absent or nil parameters), or of another transport -/
-theorem cross_prefix_rejected (table : List PrefixEntry) (reveal : Nat → Option String)
+theorem cross_prefix_rejected (table : List PrefixEntry) (reveal : Bytes → Option String)
     (regs : List RegView) (d : Bytes) (rid n : Nat) (h : wrapPrefix table reveal regs d = .found rid n) :
     ∀ r ∈ regs, r.rid = rid → (∀ r' ∈ regs, r'.rid = rid → r' = r) →
       r.transport = 4 ∧ ∃ e ∈ table, r.prefixParam = some (some e.id) ∧ n = e.offset + 64 := by
@@ -153,7 +153,7 @@ theorem mem_views {s : St} {p : String} {info} {r : RegView} (h : r ∈ views s 
 /-- **Only a validated, currently tracked registration of the connection's own phantom can be
 matched** — by any of the three transports, in any registry state. -/
 theorem match_requires_valid_tracked (s : St) (p : String) (info) (d : Bytes) (rid n : Nat)
-    (table : List PrefixEntry) (reveal : Nat → Option String) (marks : List Nat)
+    (table : List PrefixEntry) (reveal : Bytes → Option String) (marks : List Nat)
     (h : wrapMin (views s p info) d = .found rid n ∨
          wrapPrefix table reveal (views s p info) d = .found rid n ∨
          wrapObfs4 marks (views s p info) d = .found rid n) :
@@ -227,13 +227,54 @@ theorem min_altered_rejected (regs : List RegView) (d : Bytes)
   exact h r hr hi
 
 /-- prefix: if no window reveals a visible identifier, nothing is accepted -/
-theorem prefix_altered_rejected (table : List PrefixEntry) (reveal : Nat → Option String)
+theorem prefix_altered_rejected (table : List PrefixEntry) (reveal : Bytes → Option String)
     (regs : List RegView) (d : Bytes)
-    (h : ∀ e ∈ table, ∀ r ∈ regs, reveal e.offset ≠ some r.ident) :
+    (h : ∀ e ∈ table, ∀ r ∈ regs, reveal (window d e.offset) ≠ some r.ident) :
     ∀ rid n, wrapPrefix table reveal regs d ≠ .found rid n := by
   intro rid n hf
   obtain ⟨e, he, r, hr, _, hrev, _⟩ := prefix_match_sound table reveal regs d rid n hf
   exact h e he r hr hrev
+
+/-- FULL-STRENGTH reading of "altered anywhere in the tag": whatever the reveal function, a stream
+that differs from an accepted one inside the tag window of the matched prefix is not accepted. -/
+def altered_anywhere_rejected_full : Prop :=
+  ∀ (e : PrefixEntry) (reveal : Bytes → Option String) (regs : List RegView) (d d' : Bytes) (rid n : Nat),
+    wrapPrefix [e] reveal regs d = .found rid n → window d e.offset ≠ window d' e.offset →
+    d.length = d'.length → ∀ rid' n', wrapPrefix [e] reveal regs d' ≠ .found rid' n'
+
+def e0 : PrefixEntry := { id := 0, static := [], offset := 0, minLen := 64, maxLen := 64 }
+def w0 : Bytes := List.replicate 64 0
+def w1 : Bytes := w0.set 31 0x80
+/-- a reveal function that, like the real one, ignores the two high bits of byte 31 of the
+Elligator representative (the client randomises them, the station masks them) -/
+def revealMasked : Bytes → Option String := fun w =>
+  if w.set 31 ((w.getD 31 0) &&& 0x3f) == w0 then some "aa" else none
+def r0 : RegView := { ident := "aa", transport := 4, prefixParam := some (some 0), rid := 1 }
+
+/-- The full-strength statement is FALSE of the real design (recorded finding
+`C02:altered-elligator-pad-bits-accepted`): a flight altered only in the two pad bits is accepted.
+The witness is replayed against the Go code on every run (harness corpus). -/
+theorem altered_anywhere_rejected_full_refuted : ¬ altered_anywhere_rejected_full := by
+  intro h
+  have := h e0 revealMasked [r0] w0 w1 1 64 (by decide) (by decide) (by decide) 1 64
+  exact this (by decide)
+
+/-- What does hold (`_partial`): if the reveal function is injective on windows — true of the real
+obfuscator except for exactly those two pad bits — then two streams accepted for the same
+registration under the same prefix carry the same tag window: an alteration inside it is rejected. -/
+theorem altered_rejected_partial (e : PrefixEntry) (reveal : Bytes → Option String) (regs : List RegView)
+    (d d' : Bytes) (rid n rid' n' : Nat)
+    (hinj : ∀ w w' id, reveal w = some id → reveal w' = some id → w = w')
+    (huniq : ∀ r ∈ regs, ∀ r' ∈ regs, r.rid = r'.rid → r = r')
+    (h : wrapPrefix [e] reveal regs d = .found rid n) (h' : wrapPrefix [e] reveal regs d' = .found rid' n')
+    (hsame : rid = rid') : window d e.offset = window d' e.offset := by
+  obtain ⟨e1, he1, r, hr, hrid, hrev, _⟩ := prefix_match_sound [e] reveal regs d rid n h
+  obtain ⟨e2, he2, r', hr', hrid', hrev', _⟩ := prefix_match_sound [e] reveal regs d' rid' n' h'
+  simp only [List.mem_singleton] at he1 he2
+  subst he1 he2
+  have : r = r' := huniq r hr r' hr' (by rw [hrid, hrid', hsame])
+  subst this
+  exact hinj _ _ _ hrev hrev'
 
 /-! ## the generated prefix table: slices stay in bounds (also used by C11) -/
 
@@ -245,7 +286,7 @@ theorem prefix_table_wf : ∀ e ∈ CJ.Gen.prefixTable,
 theorem gen_tag_len : CJ.Gen.prefixTagLen = prefixTagLen := by decide
 
 /-- with such a table the tag slice is never taken out of range -/
-theorem prefixIter_no_panic (reveal : Nat → Option String) (regs : List RegView) (d : Bytes) (st : PLoop)
+theorem prefixIter_no_panic (reveal : Bytes → Option String) (regs : List RegView) (d : Bytes) (st : PLoop)
     (e : PrefixEntry) (hwf : e.offset + prefixTagLen ≤ max e.minLen e.maxLen) :
     prefixIter reveal regs d st e ≠ .inl .panic := by
   unfold prefixIter
@@ -270,7 +311,7 @@ theorem prefixIter_no_panic (reveal : Nat → Option String) (regs : List RegVie
         · simp
         · split <;> simp
 
-theorem prefixLoop_no_panic (reveal : Nat → Option String) (regs : List RegView) (d : Bytes)
+theorem prefixLoop_no_panic (reveal : Bytes → Option String) (regs : List RegView) (d : Bytes)
     (table : List PrefixEntry) (st : PLoop)
     (hwf : ∀ e ∈ table, e.offset + prefixTagLen ≤ max e.minLen e.maxLen) :
     prefixLoop reveal regs d st table ≠ .panic := by
@@ -288,7 +329,7 @@ theorem prefixLoop_no_panic (reveal : Nat → Option String) (regs : List RegVie
     · exact ih _ (fun e' he' => hwf e' (List.mem_cons_of_mem _ he'))
 
 /-- the prefix classifier never slices out of range on the table the code ships, for any input -/
-theorem prefix_no_panic (reveal : Nat → Option String) (regs : List RegView) (d : Bytes) :
+theorem prefix_no_panic (reveal : Bytes → Option String) (regs : List RegView) (d : Bytes) :
     wrapPrefix CJ.Gen.prefixTable reveal regs d ≠ .panic := by
   unfold wrapPrefix
   split
